@@ -98,7 +98,7 @@ def bayesian_opt(
     best_idx = min(range(len(ys)), key=lambda i: ys[i])
     best_solution, best_obj = xs[best_idx][:], ys[best_idx]
 
-    length_scales = [(hi - lo) / 2 for lo, hi in bounds]
+    length_scales = [(hi - lo) / 2 if hi > lo else 1.0 for lo, hi in bounds]
 
     def kernel(x1, x2):
         sq_dist = sum(((a - b) / ls) ** 2 for a, b, ls in zip(x1, x2, length_scales))
